@@ -2823,6 +2823,9 @@ class SQLCompiler(Compiled):
         toplevel = not self.stack
         entry = self._default_stack_entry if toplevel else self.stack[-1]
 
+        if compound_index == 0:
+            entry["select_0"] = taf
+
         new_entry: _CompilerStackEntry = {
             "correlate_froms": set(),
             "asfrom_froms": set(),
@@ -6341,7 +6344,9 @@ class SQLCompiler(Compiled):
         if insert_stmt.select is not None:
             # placed here by crud.py
             select_text = self.process(
-                self.stack[-1]["insert_from_select"], insert_into=True, **kw
+                self.stack[-1].get("insert_from_select", insert_stmt.select),
+                insert_into=True,
+                **kw,
             )
 
             if self.ctes and self.dialect.cte_follows_insert:
